@@ -8,7 +8,8 @@ CONFLICT_ANN = [
     {"balance-algorithm": "first"}, {"timeout-server": "11s"}, {"timeout-server": "12s"}, {"auth-url": "http://10.0.0.9:8000/auth"},
     {"auth-url": "http://10.0.0.8:8000/auth"}, {"auth-url": "svc://auth:8080/x"}, {"oauth": "oauth2_proxy"}, {"ssl-redirect": "true"},
     {"app-root": "/a"}, {"app-root": "/b"}, {"cert-signer": "acme"}, {"auth-tls-secret": "ca"}, {"maxconn-server": "5"}, {"maxconn-server": "6"},
-    {"affinity": "cookie"}, {"session-cookie-name": "X"}, {"hsts-max-age": "10"}, {"hsts-max-age": "20"},
+    {"affinity": "cookie"}, {"session-cookie-name": "X"}, {"hsts-max-age": "10"}, {"hsts-max-age": "20"}, {"ssl-passthrough": "true"},
+    {"ssl-passthrough": "true", "ssl-passthrough-http-port": "8080"}, {"secure-backends": "true"}, {"backend-protocol": "h2"},
 ]
 
 
@@ -71,12 +72,30 @@ def run(ctx):
     out, inp = ctl.run_histories(ctx, hs, "c06", fresh=5 if q else 9)
     res = ctl.judge(ctx, out, "c06")
     events = ctl.report(ctx, res, out, inp, {"Deterministic"}, extra_sig=sig)
+    # Gateway API: conflicting routes and rules with several annotated Services, lists returned in different orders
+    from . import c10
+    import json
+    gwbad, gwrecs, gwhs = c10.gateway_determinism(ctx, 3 if q else 6)
+    seen = set()
+    for b in sorted(gwbad, key=lambda b: (b["step"], b["id"])):
+        rec = gwrecs[(b["id"], b["step"])]
+        gsig = "Deterministic:gateway:%s" % ctl.diff_class(rec["detdiff"])
+        if gsig in seen:
+            continue
+        seen.add(gsig)
+        hf = ctx.path("viol", "%s.worlds.json" % b["id"])
+        json.dump([gwhs[int(b["id"][1:])][:b["step"] + 1]], open(hf, "w"), indent=1)
+        d = core.save_replay(ctx, gsig, [hf], dict(invariant="Deterministic", world=rec["w"], diff=rec["detdiff"],
+                                                   how="harness/cmd/gwx -fresh N -in <worlds.json>"))
+        core.classify(ctx, gsig, "Deterministic (Gateway API): world %s step %d is configured differently when the API lists its objects in another order: %s; routes %s"
+                      % (b["id"], b["step"], "; ".join(rec["detdiff"])[:400], json.dumps(rec["w"]["rt"])), d)
+    ctx.traces_validated += len(gwhs)
     states = [e for e in events if e["ev"] == "State"]
     sample = [dict(history=h["id"], ingresses=[(o["name"], o.get("tmpl"), {k: v for k, v in (o.get("ann") or {}).items() if k != "ssl-redirect"})
                                                for o in h["steps"][0]["ops"] if o["kind"] == "ing"]) for h in hs[-2:]]
     core.write_evidence(ctx, sample, extra=dict(
         cluster_states=len(states), fresh_controllers_per_state=5 if q else 9,
-        controller_runs=len(states) * (1 + (5 if q else 9)),
+        controller_runs=len(states) * (1 + (5 if q else 9)), gateway_worlds=len(gwrecs), gateway_controllers_per_world=1 + (3 if q else 6),
         bounds="each cluster state is configured by one incremental controller (permuted batch order) and 5 (thorough 9) freshly started "
                "controllers, one with the API's order and the others with shuffled List results and shuffled initial events; Go map "
                "iteration is re-randomised by every range statement of every run"),
